@@ -200,6 +200,8 @@ IsEmptyVal(v) == v.t = "null" \/ (v.t = "str" /\ v.s = <<>>) \/ (v.t = "bool" /\
 RECURSIVE MergeMaps(_, _, _)
 MergeMaps(m, ks, vs) == IF ks = <<>> THEN m ELSE MergeMaps(MapPut(m, Head(ks), Head(vs)), Tail(ks), Tail(vs))
 
+\* harness spy filters that take no argument: name -> the id they count under
+NamedSpyFilters == [sfz |-> "f1", sfa |-> "a1"]
 BuiltinFilters == {"upper", "lower", "trim", "capitalize", "length", "first", "last", "reverse",
                    "sort", "join", "default", "keys", "merge", "slice", "abs", "escape", "e"}
 
@@ -385,6 +387,8 @@ Eval(e, A, sc, calls) ==
                 IF ~as.ok THEN as
                 ELSE IF Len(e.args) = 1 /\ e.args[1].k = "lit" /\ e.args[1].v.t = "id"
                      THEN Invoke("filter", e.f, e.args[1].v.id, A, as.calls, r.v)   \* spy filter: identity
+                ELSE IF e.f \in DOMAIN NamedSpyFilters /\ e.args = <<>>
+                     THEN Invoke("filter", e.f, NamedSpyFilters[e.f], A, as.calls, r.v)   \* argument-less spy filter
                 ELSE IF e.f \in BuiltinFilters
                      THEN IF A.sb /\ e.f \notin A.W.polF THEN RErr("security", as.calls)
                           ELSE ApplyBuiltin(e.f, r.v, as.v.xs, as.calls)
@@ -612,6 +616,8 @@ ExecStmt(s, A, st) ==
                 IF ~as.ok THEN StErr(st, as.err, as.calls)
                 ELSE LET fr == IF Len(s.args) = 1 /\ s.args[1].k = "lit" /\ s.args[1].v.t = "id"
                                THEN Invoke("filter", s.f, s.args[1].v.id, A, as.calls, VS(inner.out))
+                               ELSE IF s.f \in DOMAIN NamedSpyFilters /\ s.args = <<>>
+                               THEN Invoke("filter", s.f, NamedSpyFilters[s.f], A, as.calls, VS(inner.out))
                                ELSE IF s.f \in BuiltinFilters
                                THEN IF A.sb /\ s.f \notin A.W.polF THEN RErr("security", as.calls)
                                     ELSE ApplyBuiltin(s.f, VS(inner.out), as.v.xs, as.calls)
